@@ -63,6 +63,7 @@ type Term struct {
 	bound bool     // contains a bound variable
 	facts []*Term  // side axioms that must be asserted whenever this term occurs
 	qvars []*Term  // for forall/exists
+	coef  []*big.Int // for lin: coefficient of each arg (val holds the constant)
 	pats  []*Term  // for forall: patterns
 }
 
@@ -98,6 +99,10 @@ func (ts *TermStore) mk(t *Term) *Term {
 		if a.bound {
 			t.bound = true
 		}
+	}
+	for _, c := range t.coef {
+		sb.WriteString(";c")
+		sb.WriteString(c.String())
 	}
 	for _, a := range t.qvars {
 		sb.WriteString(";q")
@@ -404,6 +409,10 @@ func Select(arr, idx *Term) *Term {
 	if cur.op == "constarr" {
 		return cur.args[0]
 	}
+	if cur.op == "ite" {
+		// push the select through a merge of arrays
+		return Ite(cur.args[0], Select(cur.args[1], idx), Select(cur.args[2], idx))
+	}
 	return TS.mk(&Term{op: "select", args: []*Term{cur, idx}, sort: es})
 }
 
@@ -414,6 +423,9 @@ func Store(arr, idx, v *Term) *Term {
 	}
 	if arr.op == "store" && arr.args[1] == idx {
 		arr = arr.args[0]
+	}
+	if v.op == "select" && v.args[0] == arr && v.args[1] == idx {
+		return arr // storing back the value that is already there
 	}
 	return TS.mk(&Term{op: "store", args: []*Term{arr, idx, v}, sort: arr.sort})
 }
@@ -440,6 +452,23 @@ func BVOp(op string, a, b *Term) *Term {
 		panic(fmt.Sprintf("bvop %s sort mismatch %s vs %s", op, a.sort, b.sort))
 	}
 	w := bvWidth(a.sort)
+	switch op {
+	case "bvadd":
+		return linCombine(a, big.NewInt(1), b, big.NewInt(1), w)
+	case "bvsub":
+		return linCombine(a, big.NewInt(1), b, big.NewInt(-1), w)
+	case "bvmul":
+		if b.isLit() {
+			return linCombine(a, b.val, nil, nil, w)
+		}
+		if a.isLit() {
+			return linCombine(b, a.val, nil, nil, w)
+		}
+	case "bvshl":
+		if b.isLit() && b.val.Cmp(big.NewInt(int64(w))) < 0 && !a.isLit() {
+			return linCombine(a, new(big.Int).Lsh(big.NewInt(1), uint(b.val.Uint64())), nil, nil, w)
+		}
+	}
 	if a.isLit() && b.isLit() {
 		x, y := a.val, b.val
 		r := new(big.Int)
@@ -496,6 +525,14 @@ func BVOp(op string, a, b *Term) *Term {
 		if b.isLit() && b.val.Sign() == 0 {
 			return a
 		}
+		// a + (b - a) = b ; (b - a) + a = b
+		if b.op == "bvsub" && b.args[1] == a {
+			return b.args[0]
+		}
+		if a.op == "bvsub" && a.args[1] == b {
+			return a.args[0]
+		}
+		// (x + y) + (j - (x + y)) handled above; (x + (y + (j - (x+y)))) is not normalised
 		// (x + c1) + c2
 		if b.isLit() && a.op == "bvadd" && a.args[1].isLit() {
 			return BVOp("bvadd", a.args[0], BVOp("bvadd", a.args[1], b))
@@ -512,6 +549,13 @@ func BVOp(op string, a, b *Term) *Term {
 		}
 		if b.isLit() {
 			return BVOp("bvadd", a, BVLit(new(big.Int).Neg(b.val), w))
+		}
+		// (a + b) - a = b ; (a + b) - b = a
+		if a.op == "bvadd" && a.args[0] == b {
+			return a.args[1]
+		}
+		if a.op == "bvadd" && a.args[1] == b {
+			return a.args[0]
 		}
 	case "bvmul":
 		if b.isLit() && b.val.Cmp(big.NewInt(1)) == 0 {
@@ -585,7 +629,94 @@ func BVNeg(a *Term) *Term {
 	if a.isLit() {
 		return BVLit(new(big.Int).Neg(a.val), w)
 	}
-	return TS.mk(&Term{op: "bvneg", args: []*Term{a}, sort: a.sort})
+	return linCombine(a, big.NewInt(-1), nil, nil, w)
+}
+
+// linear normal form over the ring of w-bit vectors: sum of coefficient*atom plus a constant.
+type linForm struct {
+	atoms map[int]*Term
+	coef  map[int]*big.Int
+	k     *big.Int
+}
+
+func linOf(t *Term, scale *big.Int, w int, into *linForm) {
+	m := new(big.Int).Lsh(big.NewInt(1), uint(w))
+	add := func(a *Term, c *big.Int) {
+		cc := new(big.Int).Mul(c, scale)
+		cc.Mod(cc, m)
+		if old, ok := into.coef[a.id]; ok {
+			cc.Add(cc, old)
+			cc.Mod(cc, m)
+		}
+		into.atoms[a.id] = a
+		into.coef[a.id] = cc
+	}
+	switch {
+	case t.isLit():
+		v := new(big.Int).Mul(t.val, scale)
+		into.k.Add(into.k, v)
+		into.k.Mod(into.k, m)
+	case t.op == "lin":
+		for i, a := range t.args {
+			add(a, t.coef[i])
+		}
+		v := new(big.Int).Mul(t.val, scale)
+		into.k.Add(into.k, v)
+		into.k.Mod(into.k, m)
+	default:
+		add(t, big.NewInt(1))
+	}
+}
+
+func linCombine(a *Term, ca *big.Int, b *Term, cb *big.Int, w int) *Term {
+	lf := &linForm{atoms: map[int]*Term{}, coef: map[int]*big.Int{}, k: new(big.Int)}
+	linOf(a, ca, w, lf)
+	if b != nil {
+		linOf(b, cb, w, lf)
+	}
+	return lf.build(w)
+}
+
+func (lf *linForm) build(w int) *Term {
+	var ids []int
+	for id, c := range lf.coef {
+		if c.Sign() != 0 {
+			ids = append(ids, id)
+		}
+	}
+	sort.Ints(ids)
+	if len(ids) == 0 {
+		return BVLit(lf.k, w)
+	}
+	if len(ids) == 1 && lf.k.Sign() == 0 && lf.coef[ids[0]].Cmp(big.NewInt(1)) == 0 {
+		return lf.atoms[ids[0]]
+	}
+	t := &Term{op: "lin", sort: BV(w), val: new(big.Int).Set(lf.k)}
+	for _, id := range ids {
+		t.args = append(t.args, lf.atoms[id])
+		t.coef = append(t.coef, lf.coef[id])
+	}
+	return TS.mk(t)
+}
+
+// linMinus returns t - atom when atom occurs in t with coefficient 1 (ok=false otherwise).
+func linMinus(t, atom *Term) (*Term, bool) {
+	w := bvWidth(t.sort)
+	if t == atom {
+		return BVu(0, w), true
+	}
+	if t.op != "lin" {
+		return nil, false
+	}
+	for i, a := range t.args {
+		if a == atom {
+			if t.coef[i].Cmp(big.NewInt(1)) != 0 {
+				return nil, false
+			}
+			return linCombine(t, big.NewInt(1), atom, big.NewInt(-1), w), true
+		}
+	}
+	return nil, false
 }
 
 func BVNot(a *Term) *Term {
@@ -771,6 +902,13 @@ func rebuild(t *Term, na []*Term, np []*Term) *Term {
 		return BVNeg(na[0])
 	case "bvnot":
 		return BVNot(na[0])
+	case "lin":
+		w := bvWidth(t.sort)
+		lf := &linForm{atoms: map[int]*Term{}, coef: map[int]*big.Int{}, k: new(big.Int).Set(t.val)}
+		for i, a := range na {
+			linOf(a, t.coef[i], w, lf)
+		}
+		return lf.build(w)
 	}
 	nt := &Term{op: t.op, name: t.name, args: na, sort: t.sort, val: t.val, qvars: t.qvars, pats: np}
 	r := TS.mk(nt)
@@ -838,6 +976,67 @@ func printTerm(sb *strings.Builder, t *Term, named map[int]string) {
 		sb.WriteString("((_ " + t.op + " " + t.name + ") ")
 		printTerm(sb, t.args[0], named)
 		sb.WriteByte(')')
+	case "lin":
+		w := bvWidth(t.sort)
+		m := new(big.Int).Lsh(big.NewInt(1), uint(w))
+		half := new(big.Int).Rsh(m, 1)
+		// positive part first, negative coefficients as bvsub
+		var pos, neg []int
+		for i, c := range t.coef {
+			if c.Cmp(half) >= 0 {
+				neg = append(neg, i)
+			} else {
+				pos = append(pos, i)
+			}
+		}
+		printAtom := func(i int, c *big.Int) {
+			if c.Cmp(big.NewInt(1)) == 0 {
+				printTerm(sb, t.args[i], named)
+				return
+			}
+			fmt.Fprintf(sb, "(bvmul (_ bv%s %d) ", c.String(), w)
+			printTerm(sb, t.args[i], named)
+			sb.WriteByte(')')
+		}
+		// build nested expression: ((p0 + p1 + ... + k) - n0 - n1 ...)
+		open := 0
+		for range neg {
+			sb.WriteString("(bvsub ")
+			open++
+		}
+		nplus := len(pos)
+		if t.val.Sign() != 0 || nplus == 0 {
+			nplus++
+		}
+		for i := 0; i < nplus-1; i++ {
+			sb.WriteString("(bvadd ")
+		}
+		first := true
+		for _, i := range pos {
+			if !first {
+				sb.WriteByte(' ')
+			}
+			printAtom(i, t.coef[i])
+			if !first {
+				sb.WriteByte(')')
+			}
+			first = false
+		}
+		if t.val.Sign() != 0 || len(pos) == 0 {
+			if !first {
+				sb.WriteByte(' ')
+			}
+			fmt.Fprintf(sb, "(_ bv%s %d)", t.val.String(), w)
+			if !first {
+				sb.WriteByte(')')
+			}
+		}
+		for _, i := range neg {
+			sb.WriteByte(' ')
+			printAtom(i, new(big.Int).Sub(m, t.coef[i]))
+			sb.WriteByte(')')
+		}
+		_ = open
 	case "constarr":
 		sb.WriteString("((as const " + t.sort + ") ")
 		printTerm(sb, t.args[0], named)
@@ -990,7 +1189,7 @@ func scriptImpl(asserts []*Term, opts ScriptOpts, obs []observable) string {
 	// shared sub-terms
 	named := map[int]string{}
 	for _, t := range order {
-		if t.bound || len(t.args) == 0 || t.op == "forall" || t.op == "exists" {
+		if t.bound || len(t.args) == 0 {
 			continue
 		}
 		if refs[t.id] > 1 {
@@ -1199,4 +1398,193 @@ func printSizeDebug(asserts []*Term) {
 	for _, a := range asserts {
 		fmt.Fprintf(os.Stderr, "  assert inline size %.3g\n", inl(a, true))
 	}
+}
+
+// hasQuant reports whether t contains a quantifier.
+func hasQuant(t *Term, memo map[int]bool) bool {
+	if v, ok := memo[t.id]; ok {
+		return v
+	}
+	r := t.op == "forall" || t.op == "exists"
+	if !r {
+		for _, a := range t.args {
+			if hasQuant(a, memo) {
+				r = true
+				break
+			}
+		}
+	}
+	memo[t.id] = r
+	return r
+}
+
+// weakenQuant replaces quantified sub-formulas of a hypothesis by true (positive positions) or
+// false (negative positions): the result is implied by t, so a refutation that uses it is sound.
+func weakenQuant(t *Term) *Term {
+	memo := map[int]bool{}
+	cache := map[[2]int]*Term{}
+	var rec func(t *Term, pos bool) *Term
+	rec = func(t *Term, pos bool) *Term {
+		if t.sort != SBool || !hasQuant(t, memo) {
+			return t
+		}
+		key := [2]int{t.id, 0}
+		if pos {
+			key[1] = 1
+		}
+		if r, ok := cache[key]; ok {
+			return r
+		}
+		var r *Term
+		switch t.op {
+		case "forall", "exists":
+			r = Bool(pos)
+		case "and":
+			as := make([]*Term, len(t.args))
+			for i, a := range t.args {
+				as[i] = rec(a, pos)
+			}
+			r = And(as...)
+		case "or":
+			as := make([]*Term, len(t.args))
+			for i, a := range t.args {
+				as[i] = rec(a, pos)
+			}
+			r = Or(as...)
+		case "not":
+			r = Not(rec(t.args[0], !pos))
+		case "=>":
+			r = Implies(rec(t.args[0], !pos), rec(t.args[1], pos))
+		case "ite":
+			if hasQuant(t.args[0], memo) {
+				r = Bool(pos)
+			} else {
+				r = Ite(t.args[0], rec(t.args[1], pos), rec(t.args[2], pos))
+			}
+		default:
+			// iff and anything else: cannot weaken through, drop the whole formula
+			r = Bool(pos)
+		}
+		cache[key] = r
+		return r
+	}
+	return rec(t, true)
+}
+
+// selectIndices collects the ground 64-bit index terms used in array reads of t.
+func selectIndices(t *Term, out map[int]*Term, seen map[int]bool) {
+	if seen[t.id] {
+		return
+	}
+	seen[t.id] = true
+	if t.op == "select" && !t.args[1].bound && t.args[1].sort == BV(64) {
+		out[t.args[1].id] = t.args[1]
+	}
+	for _, a := range t.args {
+		selectIndices(a, out, seen)
+	}
+}
+
+// instantiateQuant replaces each positively occurring single-variable universal hypothesis by the
+// conjunction of its instances at the given index terms (other quantifiers are weakened away as
+// in weakenQuant). The result is implied by t.
+func instantiateQuant(t *Term, idx []*Term) *Term {
+	memo := map[int]bool{}
+	cache := map[[2]int]*Term{}
+	var rec func(t *Term, pos bool) *Term
+	rec = func(t *Term, pos bool) *Term {
+		if t.sort != SBool || !hasQuant(t, memo) {
+			return t
+		}
+		key := [2]int{t.id, 0}
+		if pos {
+			key[1] = 1
+		}
+		if r, ok := cache[key]; ok {
+			return r
+		}
+		var r *Term
+		switch t.op {
+		case "forall":
+			if pos && len(t.qvars) == 1 && t.qvars[0].sort == BV(64) && !hasQuant(t.args[0], memo) {
+				var insts []*Term
+				for _, x := range idx {
+					insts = append(insts, Subst(t.args[0], map[int]*Term{t.qvars[0].id: x}))
+				}
+				r = And(insts...)
+			} else {
+				r = Bool(pos)
+			}
+		case "exists":
+			r = Bool(pos)
+		case "and":
+			as := make([]*Term, len(t.args))
+			for i, a := range t.args {
+				as[i] = rec(a, pos)
+			}
+			r = And(as...)
+		case "or":
+			as := make([]*Term, len(t.args))
+			for i, a := range t.args {
+				as[i] = rec(a, pos)
+			}
+			r = Or(as...)
+		case "not":
+			r = Not(rec(t.args[0], !pos))
+		case "=>":
+			r = Implies(rec(t.args[0], !pos), rec(t.args[1], pos))
+		case "ite":
+			if hasQuant(t.args[0], memo) {
+				r = Bool(pos)
+			} else {
+				r = Ite(t.args[0], rec(t.args[1], pos), rec(t.args[2], pos))
+			}
+		default:
+			r = Bool(pos)
+		}
+		cache[key] = r
+		return r
+	}
+	return rec(t, true)
+}
+
+// groundInstances: two rounds of instantiation of the quantified hypotheses in pc at the array
+// indices occurring in pc and the goals.
+func groundInstances(pc *Term, goals []*Term) *Term {
+	m := map[int]bool{}
+	if !hasQuant(pc, m) {
+		return pc
+	}
+	idx := map[int]*Term{}
+	seen := map[int]bool{}
+	weak := weakenQuant(pc)
+	selectIndices(weak, idx, seen)
+	for _, g := range goals {
+		selectIndices(g, idx, seen)
+	}
+	list := func() []*Term {
+		var ids []int
+		for id := range idx {
+			ids = append(ids, id)
+		}
+		sort.Ints(ids)
+		var out []*Term
+		for _, id := range ids {
+			out = append(out, idx[id])
+		}
+		return out
+	}
+	if len(idx) == 0 || len(idx) > 120 {
+		return weak
+	}
+	res := instantiateQuant(pc, list())
+	for round := 0; round < 4; round++ {
+		n := len(idx)
+		selectIndices(res, idx, map[int]bool{})
+		if len(idx) == n || len(idx) > 120 {
+			return res
+		}
+		res = instantiateQuant(pc, list())
+	}
+	return res
 }
